@@ -612,6 +612,60 @@ def generate(rng, tier, outdir):
         w.count("malformed.mode", ["max_gamma<1", "max_backjumps<0", "no cut kind, W=1", "W=0", "three-qubit gate"][mode])
         emit("malformed", inp, nontrivial=True)
 
+    # ---- stream "budget": incumbents BETWEEN the steps of the wire-cut budget.  The exact search may add at most
+    # max_wire_cuts_gamma(greedy gamma) wires, a step function of the incumbent with steps at 3, 7, 15, ...; cx/swap circuits only ever
+    # produce incumbents ON the steps (3, 7, 9, 21, ...).  Gate kinds here: cx (gamma 3) and rzz(asin s), s in {1/4, 1/2, 3/4}, whose
+    # kappa is exactly 3/2, 2, 5/2 in binary64 (contract below), so that all products stay exact and the model comparison stays strict.
+    # Kept: circuits of the bounded space (<= 4 qubits, 3-4 gates from TWO kinds of different gamma, a qubit pair used twice) in which the
+    # brute force of this file finds a choice WITH wire cuts strictly cheaper than every choice of gate cuts only (both gate orientations
+    # occur, so the cheaper wire cut is a first or a second input); gate and wire cuts allowed, unrestricted search. ----
+    import math
+    from collections import Counter
+    mid = [("cx", None, Fraction(3)), ("rzz", math.asin(0.5), Fraction(2)), ("rzz", math.asin(0.25), Fraction(3, 2)),
+           ("rzz", math.asin(0.75), Fraction(5, 2))]
+
+    def mid_op(k, a, b):
+        name, theta, _ = mid[k]
+        return dict(name=name, qs=[a, b]) if theta is None else dict(name=name, qs=[a, b], params=[theta])
+
+    def budget_case(nq, kseq, W, seeds):
+        case = emit("budget", dict(nq=nq, ops=[mid_op(k, a, b) for k, a, b in kseq], W=W, gate_lo=True, wire_lo=True, max_gamma=1024,
+                                   max_backjumps=None, seeds=seeds))
+        got = sorted(Fraction(v[0]) for v in case["gtab"].values())
+        w.contract("budget stream: gate kappas are exactly the intended dyadic values", got == sorted({mid[k][2] for k, _, _ in kseq}))
+        gg = [r.get("greedy_gamma") for r in case["runs"] if r.get("greedy_gamma")]
+        if gg:
+            g0 = Fraction(gg[0])
+            w.count("budget.greedy_gamma", "in (4,7)" if 4 < g0 < 7 else ("in [7,15)" if 7 <= g0 < 15 else ("<= 4" if g0 <= 4 else ">= 15")))
+        w.count("budget.optimal_gamma_exact", (case.get("oracle") or {}).get("optimum"))
+
+    # fixed part: a doubled bond followed by a doubled bond to a third qubit, the second bond in both orientations
+    for k1, k2 in ((0, 1), (1, 1), (1, 3), (3, 3), (0, 2), (2, 0)):
+        for (a, b) in ((1, 2), (2, 1)):
+            budget_case(3, [(k1, 0, 1), (k2, 0, 1), (k2, a, b), (k1, a, b)], 2, [k1 + 2 * k2, None])
+    # targeted part
+    bpool = [sq for g in (3, 4) for sq in canon_seqs(g)
+             if max(max(pq) for pq in sq) >= 2 and max(Counter(frozenset(pq) for pq in sq).values()) >= 2]
+    kept = tried = 0
+    n_budget = 50 if quick else 600
+    while kept < n_budget and tried < 400 * n_budget:
+        tried += 1
+        sq = bpool[int(rng.integers(0, len(bpool)))]
+        nq = max(max(pq) for pq in sq) + 1
+        k1, k2 = [int(x) for x in rng.permutation(len(mid))[:2]]
+        kseq = [(k1 if rng.random() < 0.5 else k2, a, b) for a, b in sq]
+        W = int(rng.integers(2, nq))
+        s0 = int(rng.integers(0, 1000))
+        glist = [(a, b, mid[k][2]) for k, a, b in kseq]
+        og = brute_optimum(nq, glist, W, True, False)[0]
+        if og is None or og <= 4:
+            continue
+        if not brute_optimum(nq, glist, W, True, True)[0] < og:
+            continue
+        kept += 1
+        budget_case(nq, kseq, W, [s0, None] if kept % 2 else [s0])
+    w.contract("budget stream: enough circuits whose optimum needs a wire cut", kept == n_budget)
+
     return w.finish(
         rule="(1) corpus: the F3 witness class (cx;swap chains, W=2, max_gamma in {1,2,3,8}, every cut-kind combination, 3 seeds incl. None); "
              "(1b) corpus of %d circuits of the bounded space whose every brute-force optimum wire-cuts a qubit and later gate-cuts a gate touching "
@@ -624,11 +678,15 @@ def generate(rng, tier, outdir):
              "(2a') corpus 'repeat': 40 circuits with a gate repeated on one qubit pair followed by a gate to a third qubit (3-5 gates, 3-4 qubits), "
              "wire cuts only and wire+gate cuts, W = 2 or 3, unrestricted search, 2 seeds incl. None; "
              "(2b) random circuits of that space with 3-4 gates, W < n, max_gamma in {1,2} (limits below the optimum on purpose); "
+             "(2c) stream 'budget': incumbents between the steps 3, 7, 15 of the wire-cut budget max_wire_cuts_gamma(greedy gamma): circuits of the bounded space "
+             "(3-4 qubits, 3-4 gates from two of the kinds cx: 3, rzz(asin 1/2): 2, rzz(asin 1/4): 3/2, rzz(asin 3/4): 5/2 - kappas exact in binary64 -, a qubit pair used twice) "
+             "in which the brute force finds a choice with wire cuts strictly cheaper than every gate-cut-only choice (12 fixed doubled-bond chains + %d drawn from rng), "
+             "gate and wire cuts, W < n, unrestricted search, 1-2 seeds incl. None, compared strictly with the model and judged; "
              "(3) random circuits on 2..6 qubits with 1..7 two-qubit gates (idle qubits, arbitrary first use, one-qubit gates; half of them also "
              "with partial/full barriers, opaque 2-qubit non-Gate instructions, cz/iswap (equal gammas) and rzz(0) of gamma 1; W occasionally n+1), max_gamma in %s "
              "(limits below the optimum included), max_backjumps in %s, 3 seeds incl. None; (4) malformed: invalid settings, no cut kind, W=0, a three-qubit gate. "
              "Compared EXACTLY per seed with the model fed the recorded queue tape: sampling_overhead and minimum_reached (or the refusal). "
              "non-trivial = at least one cut made." % (
                  len(REWIRED_CORPUS), gmax_full, " plus a random sample of %d circuits with 4 gates" % n_sample if n_sample else "",
-                 MAX_GAMMAS, BACKJUMPS, LARGE_GAMMAS, MAX_GAMMAS, BACKJUMPS),
+                 MAX_GAMMAS, BACKJUMPS, LARGE_GAMMAS, n_budget, MAX_GAMMAS, BACKJUMPS),
         extra=dict(extra=dict(strict=True)))
